@@ -292,12 +292,15 @@ func ruleEXH(c *Ctx) []Obligation {
 			}
 		}
 		tags := asmTags(ts.fn.Name(), typeKey(ts.operand))
+		domain, domainWhy := c.switchDomain(ts, members)
 		for _, m := range members {
 			o := Obligation{Key: fmt.Sprintf("%s ∋ %s", ts.key(), typeKey(m)), Pos: c.pos(ts.sw.Pos()), Tags: tags}
 			ek := typeKey(in) + "∌" + typeKey(m)
 			switch {
 			case covered[m] != "":
 				o.Verdict, o.Detail = OK, covered[m]
+			case domain != nil && !domain[m]:
+				o.Verdict, o.Detail = OK, "cannot reach this switch: "+domainWhy
 			case mode == "error":
 				o.Verdict, o.Detail = OK, "default returns an error"
 			case exhExempt[ek] != "":
@@ -314,6 +317,122 @@ func ruleEXH(c *Ctx) []Obligation {
 		}
 	}
 	return obs
+}
+
+// switchDomain: the members of the sum type that can reach a type switch over a parameter of
+// an unexported function (a second-level dispatcher): when every call of the function passes a
+// variable bound by a case clause of another type switch, only the types listed in those clauses
+// arrive. nil: unrestricted.
+func (c *Ctx) switchDomain(ts *typeSwitch, members []*types.Named) (map[*types.Named]bool, string) {
+	info := ts.p.TypesInfo
+	var x ast.Expr
+	switch a := ts.sw.Assign.(type) {
+	case *ast.AssignStmt:
+		x = a.Rhs[0].(*ast.TypeAssertExpr).X
+	case *ast.ExprStmt:
+		x = a.X.(*ast.TypeAssertExpr).X
+	}
+	id, ok := unparen(x).(*ast.Ident)
+	if !ok || ts.fn.Exported() {
+		return nil, ""
+	}
+	sig := ts.fn.Type().(*types.Signature)
+	pidx := -1
+	for i := 0; i < sig.Params().Len(); i++ {
+		if info.ObjectOf(id) == sig.Params().At(i) {
+			pidx = i
+		}
+	}
+	if pidx < 0 {
+		return nil, ""
+	}
+	// the parameter must not be reassigned before the switch
+	reassigned := false
+	ast.Inspect(ts.fd.Body, func(n ast.Node) bool {
+		if as, ok := n.(*ast.AssignStmt); ok && as.Tok == token.ASSIGN {
+			for _, l := range as.Lhs {
+				if li, ok := l.(*ast.Ident); ok && info.ObjectOf(li) == sig.Params().At(pidx) {
+					reassigned = true
+				}
+			}
+		}
+		return true
+	})
+	if reassigned {
+		return nil, ""
+	}
+	// implicit objects of case clauses → the clause
+	dom := map[*types.Named]bool{}
+	var callers []string
+	sites, unrestricted := 0, false
+	for _, path := range []string{pkgASM} {
+		c.eachFunc(path, func(p *packages.Package, fd *ast.FuncDecl, caller *types.Func) {
+			ci := p.TypesInfo
+			clauseOf := map[types.Object]*ast.CaseClause{}
+			ast.Inspect(fd.Body, func(n ast.Node) bool {
+				if cl, ok := n.(*ast.CaseClause); ok {
+					if obj := ci.Implicits[cl]; obj != nil {
+						clauseOf[obj] = cl
+					}
+				}
+				return true
+			})
+			ast.Inspect(fd.Body, func(n ast.Node) bool {
+				// a function value taken without a call cannot be narrowed
+				if idn, ok := n.(*ast.Ident); ok && ci.Uses[idn] == ts.fn {
+					sites++
+				}
+				call, ok := n.(*ast.CallExpr)
+				if !ok || calleeOf(ci, call) != ts.fn || pidx >= len(call.Args) {
+					return true
+				}
+				sites--
+				aid, ok := unparen(call.Args[pidx]).(*ast.Ident)
+				var cl *ast.CaseClause
+				if ok {
+					cl = clauseOf[ci.ObjectOf(aid)]
+				}
+				if cl == nil || len(cl.List) == 0 {
+					unrestricted = true
+					return true
+				}
+				sites++
+				callers = append(callers, funcKey(caller))
+				for _, e := range cl.List {
+					t := ci.TypeOf(e)
+					n := namedOf(t)
+					if n == nil {
+						continue
+					}
+					if iface, isIface := n.Underlying().(*types.Interface); isIface && !isPtr(t) {
+						for _, m := range members {
+							if types.Implements(m, iface) || types.Implements(types.NewPointer(m), iface) {
+								dom[m] = true
+							}
+						}
+						continue
+					}
+					dom[n] = true
+				}
+				return true
+			})
+		})
+	}
+	if unrestricted || len(callers) == 0 || sites != len(callers) {
+		return nil, ""
+	}
+	sort.Strings(callers)
+	return dom, fmt.Sprintf("every call (%s) passes a variable that a case clause of the caller's type switch has narrowed to %d member(s)", strings.Join(dedupStrings(callers), ", "), len(dom))
+}
+
+func dedupStrings(xs []string) []string {
+	var out []string
+	for i, x := range xs {
+		if i == 0 || x != xs[i-1] {
+			out = append(out, x)
+		}
+	}
+	return out
 }
 
 // ---------------------------------------------------------------------------
@@ -588,6 +707,11 @@ func ruleACC(c *Ctx) []Obligation {
 		unused token.Pos
 	}
 	called := map[string]*callInfo{}
+	type ifaceCall struct {
+		method string
+		pos    token.Pos
+	}
+	ifaceCalls := map[*types.Named][]ifaceCall{}
 	for _, f := range pa.Syntax {
 		var stack []ast.Node
 		ast.Inspect(f, func(n ast.Node) bool {
@@ -610,6 +734,11 @@ func ruleACC(c *Ctx) []Obligation {
 			}
 			recv := astNode(sel.Recv())
 			if recv == nil {
+				// an accessor called through an interface declared in package asm
+				// (astBinaryInst{X(); Y()}): it counts for every node type converted to it
+				if in := namedOf(sel.Recv()); in != nil && in.Obj().Pkg() != nil && in.Obj().Pkg().Path() == pkgASM && types.IsInterface(in) {
+					ifaceCalls[in] = append(ifaceCalls[in], ifaceCall{se.Sel.Name, call.Pos()})
+				}
 				return true
 			}
 			key := recv.Obj().Name() + "." + se.Sel.Name
@@ -643,6 +772,58 @@ func ruleACC(c *Ctx) []Obligation {
 			}
 			return true
 		})
+	}
+	// node types handed to such an interface (as an argument or in an assignment)
+	if len(ifaceCalls) > 0 {
+		convert := func(from types.Type, to types.Type) {
+			in := namedOf(to)
+			k := astNode(from)
+			if in == nil || k == nil || len(ifaceCalls[in]) == 0 {
+				return
+			}
+			for _, ic := range ifaceCalls[in] {
+				key := k.Obj().Name() + "." + ic.method
+				if called[key] == nil {
+					called[key] = &callInfo{pos: ic.pos}
+				}
+				called[key].used = true
+			}
+		}
+		for _, f := range pa.Syntax {
+			ast.Inspect(f, func(n ast.Node) bool {
+				switch n := n.(type) {
+				case *ast.CallExpr:
+					sig, ok := info.TypeOf(n.Fun).(*types.Signature)
+					if !ok {
+						return true
+					}
+					for i, a := range n.Args {
+						pi := i
+						if pi >= sig.Params().Len() {
+							pi = sig.Params().Len() - 1
+						}
+						if pi >= 0 {
+							convert(info.TypeOf(a), sig.Params().At(pi).Type())
+						}
+					}
+				case *ast.AssignStmt:
+					if len(n.Lhs) == len(n.Rhs) {
+						for i := range n.Lhs {
+							if lt, rt := info.TypeOf(n.Lhs[i]), info.TypeOf(n.Rhs[i]); lt != nil && rt != nil {
+								convert(rt, lt)
+							}
+						}
+					}
+				case *ast.ValueSpec:
+					if n.Type != nil {
+						for _, v := range n.Values {
+							convert(info.TypeOf(v), info.TypeOf(n.Type))
+						}
+					}
+				}
+				return true
+			})
+		}
 	}
 	var obs []Obligation
 	var nodes []*types.Named
